@@ -5,6 +5,8 @@ import (
 	"encoding/json"
 	"fmt"
 	"os"
+	"path/filepath"
+	"regexp"
 	"sort"
 	"strings"
 
@@ -27,7 +29,48 @@ type c06Suite struct{}
 
 func init() { register("c06", c06Suite{}) }
 
-var c06Kinds = []string{"fresh", "translator", "cross", "keywords", "case", "swap"}
+var c06Kinds = []string{"fresh", "translator", "cross", "keywords", "case", "swap", "probe"}
+
+var c06GenIDAnywhere = regexp.MustCompile(`\b(n|e|s|i|pi|ep|pc|ex)[0-9]+\b`)
+
+// c06ProbeRenaming: identity except that ONE user variable takes the spelling of a generated identifier that
+// occurs in the original translation (the sharpest capture probe: the name is known to be in play).
+func (r *c06Runner) probeRenaming(q string, params map[string]any, seed uint64, vars, prms []string) (rv, rp map[string]string) {
+	rv, rp = map[string]string{}, map[string]string{}
+	for _, v := range vars {
+		rv[v] = v
+	}
+	for _, p := range prms {
+		rp[p] = p
+	}
+	m, err, pp := parseQuery(q)
+	if err != nil || pp != "" || len(vars) == 0 {
+		return
+	}
+	o := translateOutcome(m, r.mapper, defaultParams(prms, params))
+	if o.Status != "ok" {
+		return
+	}
+	user := map[string]bool{}
+	for _, v := range vars {
+		user[v] = true
+	}
+	seen := map[string]bool{}
+	var ids []string
+	for _, g := range c06GenIDAnywhere.FindAllString(o.RawSQL, -1) {
+		if !seen[g] && !user[g] {
+			seen[g] = true
+			ids = append(ids, g)
+		}
+	}
+	if len(ids) == 0 {
+		return
+	}
+	sort.Strings(ids)
+	rng := NewRng(seed)
+	rv[vars[rng.Intn(len(vars))]] = ids[rng.Intn(len(ids))]
+	return
+}
 
 var c06TranslatorNames = []string{
 	"n0", "e0", "s0", "i0", "pi0", "ep0", "path", "depth", "root_id", "next_id", "satisfied", "is_cycle", "_kind_idx",
@@ -226,6 +269,8 @@ func (c06Suite) Gen(rng *Rng, tier string, w *bufio.Writer, stats *Stats) {
 type c06Runner struct {
 	stats  *Stats
 	mapper pgsql.KindMapper
+	trace  string // scope-operation trace of the traced translation of the current case ("-" = none)
+	side   string // which translation of the pair to trace: "a", "b" or ""
 }
 
 func (c06Suite) NewRunner(stats *Stats) Runner {
@@ -315,11 +360,20 @@ func (r *c06Runner) runPair(q string, params map[string]any, rv, rp map[string]s
 	_, psyms := userSymbols(m0)
 	full := defaultParams(psyms, params)
 	renameSymbols(m1, rv, rp)
-	c06TraceBegin(traceTag + ".a")
+	if traceTag == "a" {
+		c06TraceOn()
+	}
 	a := translateOutcome(m0, r.mapper, full)
-	c06TraceBegin(traceTag + ".b")
+	if traceTag == "a" {
+		r.trace = c06TraceOff()
+	}
+	if traceTag == "b" {
+		c06TraceOn()
+	}
 	b := translateOutcome(m1, r.mapper, renameParamMap(full, rp))
-	c06TraceEnd()
+	if traceTag == "b" {
+		r.trace = c06TraceOff()
+	}
 	return c06Pair{a, b}, true
 }
 
@@ -345,11 +399,14 @@ func (r *c06Runner) check(q string, params map[string]any, rvIn, rpIn map[string
 				rp[p] = n
 			}
 		}
+	} else if kind == "probe" {
+		rv, rp = r.probeRenaming(q, params, seed, vars, prms)
 	} else {
 		rv, rp = c06Renaming(kind, seed, vars, prms)
 	}
 	coll = c06Collides(vars, prms) || c06Collides(mapValues(rv, vars), mapValues(rp, prms))
-	pair, _ = r.runPair(q, params, rv, rp, "t")
+	pair, _ = r.runPair(q, params, rv, rp, r.side)
+	r.side = "" // only the first pair of a case is traced
 	cls, detail = c06Compare(pair.a, pair.b, rp)
 	if cls != "ok" && cls != "untranslatable" && coll {
 		// Is the spelling shared between a variable and a parameter the ONLY cause? De-collide both sides by the
@@ -381,7 +438,54 @@ func (r *c06Runner) check(q string, params map[string]any, rvIn, rpIn map[string
 			}
 		}
 	}
+	if cls != "ok" && cls != "untranslatable" && cls != "ns-collision" {
+		cls, detail = r.refine(q, params, m, vars, prms, rv, rp, cls, detail, pair)
+	}
 	return
+}
+
+var c06GenIDre = regexp.MustCompile(`^(n|e|s|i|pi|ep|pc|ex)[0-9]+$`)
+
+// refine isolates the two shapes of renaming sensitivity known on the unchanged tree so that each gets its own
+// specific finding key; anything else keeps the generic class and is reported as a violation.
+func (r *c06Runner) refine(q string, params map[string]any, m *cypher.RegularQuery, vars, prms []string, rv, rp map[string]string,
+	cls, detail string, pair c06Pair) (string, string) {
+	// (i) a PATH variable spelled like a generated identifier: re-spell only those and try again
+	pathVars := pathVariableSymbols(m)
+	rv2 := map[string]string{}
+	changed := false
+	for i, v := range vars {
+		rv2[v] = rv[v]
+		if pathVars[v] && c06GenIDre.MatchString(rv[v]) {
+			rv2[v] = fmt.Sprintf("zpv%dx", i)
+			changed = true
+		}
+	}
+	if changed {
+		p2, _ := r.runPair(q, params, rv2, rp, "t")
+		if c2, _ := c06Compare(p2.a, p2.b, rp); c2 == "ok" || c2 == "untranslatable" {
+			return "gen-id-captured-by-path-variable", cls + ": " + detail
+		}
+	}
+	// (ii) the user's spelling shows up verbatim inside the statement (not as an output alias): with the fresh
+	// renaming, mapping the fresh spellings back must make the two statements equal
+	if pair.a.Status == "ok" {
+		fv, fp := c06Renaming("fresh", 0, vars, prms)
+		p3, _ := r.runPair(q, params, fv, fp, "t")
+		if p3.b.Status == "ok" && p3.a.SQL != p3.b.SQL {
+			back := p3.b.SQL
+			for _, v := range vars {
+				back = strings.ReplaceAll(back, fv[v], v)
+			}
+			for _, p := range prms {
+				back = strings.ReplaceAll(back, fp[p], p)
+			}
+			if back == p3.a.SQL {
+				return "user-name-in-inner-sql:" + strings.Join(pair.a.Lowerings, "+"), cls + ": " + detail
+			}
+		}
+	}
+	return cls, detail
 }
 
 func (r *c06Runner) Step(t []string, raw string) string {
@@ -429,13 +533,22 @@ func (r *c06Runner) Step(t []string, raw string) string {
 			_ = json.Unmarshal(payload[3], &rpIn)
 		}
 	}
-	traceFile := c06TraceFile()
+	r.trace, r.side = "-", ""
+	switch kind {
+	case "fresh":
+		r.side = "a"
+	case "translator", "probe", "explicit":
+		r.side = "b"
+	}
 	cls, detail, pair, vars, prms, rv, rp, coll := r.check(q, params, rvIn, rpIn, kind, seed)
 	if cls == "parse" {
 		r.stats.Inc("parse_fail")
-		return "cls=parse st=parse st2=parse coll=0 nv=0 np=0 ren={} min=\"\" detail=\"\" trace=-"
+		return "cls=parse st=parse st2=parse coll=0 nv=0 np=0 ren={} min=\"\" detail=\"\" tops=0 trace=-"
 	}
-	trace := c06TraceCollect(traceFile)
+	trace := r.trace
+	if trace != "-" {
+		r.stats.Inc("traced_translations")
+	}
 	r.stats.Inc("class." + cls)
 	r.stats.Inc("kind." + kind)
 	if cls == "ok" {
@@ -450,15 +563,10 @@ func (r *c06Runner) Step(t []string, raw string) string {
 	min := ""
 	if cls != "ok" && cls != "untranslatable" {
 		// minimise the query text under the SAME renaming maps (symbols that disappear are simply unused)
-		saved := os.Getenv("VERIF_C06_TRACE")
-		os.Unsetenv("VERIF_C06_TRACE")
 		min = minimiseQuery(q, func(cand string) bool {
 			c, _, _, _, _, _, _, _ := r.check(cand, params, rv, rp, kind, seed)
 			return c == cls
 		}, 400)
-		if saved != "" {
-			os.Setenv("VERIF_C06_TRACE", saved)
-		}
 		if min != q {
 			_, detail, _, _, _, _, _, _ = r.check(min, params, rv, rp, kind, seed)
 		}
@@ -467,8 +575,12 @@ func (r *c06Runner) Step(t []string, raw string) string {
 	if len(detail) > 1500 {
 		detail = detail[:1500] + "…"
 	}
-	return fmt.Sprintf("cls=%s st=%s st2=%s coll=%d nv=%d np=%d ren=%s min=%s detail=%s trace=%s",
-		cls, pair.a.Status, pair.b.Status, b2i(coll), len(vars), len(prms), strings.ReplaceAll(string(ren), " ", ""), jsonQuote(min), jsonQuote(detail), trace)
+	tops := 0
+	if trace != "-" {
+		tops = c06TraceOps
+	}
+	return fmt.Sprintf("cls=%s st=%s st2=%s coll=%d nv=%d np=%d ren=%s min=%s detail=%s tops=%d trace=%s",
+		cls, pair.a.Status, pair.b.Status, b2i(coll), len(vars), len(prms), strings.ReplaceAll(string(ren), " ", ""), jsonQuote(min), jsonQuote(detail), tops, trace)
 }
 
 func b2i(b bool) int {
@@ -480,51 +592,45 @@ func b2i(b bool) int {
 
 // ---------------------------------------------------------------- optional scope-operation trace (hooks/C06.patch)
 //
-// With the verif hook present in the translate package and VERIF_C06_TRACE naming a file, every Scope
-// operation of the real translator appends one line to that file. The harness never references hook symbols,
-// so it builds against a tree without the hook; the trace is then reported as "-".
+// With the verif hook present in the translate package, every Scope operation of the real translator appends one
+// S-expression line to the file named by VERIF_C06_TRACE while that variable is set. The harness never references
+// hook symbols, so it builds against a tree without the hook; the trace is then empty and reported as "-".
+// One translation is traced per case: the original for kind fresh, the renamed twin for translator / probe / explicit.
 
-func c06TraceFile() string {
-	p := os.Getenv("VERIF_C06_TRACE")
-	if p == "" {
-		return ""
-	}
-	_ = os.WriteFile(p, nil, 0o644)
-	return p
+var c06TraceOps int
+
+var c06TracePath = filepath.Join(os.TempDir(), fmt.Sprintf("verif_c06_%d.trace", os.Getpid()))
+
+func c06TraceOn() {
+	_ = os.WriteFile(c06TracePath, nil, 0o644)
+	os.Setenv("VERIF_C06_TRACE", c06TracePath)
 }
 
-func c06TraceBegin(tag string) {
-	if p := os.Getenv("VERIF_C06_TRACE"); p != "" {
-		if f, err := os.OpenFile(p, os.O_APPEND|os.O_WRONLY|os.O_CREATE, 0o644); err == nil {
-			fmt.Fprintf(f, "begin %s\n", tag)
-			f.Close()
-		}
-	}
-}
-
-func c06TraceEnd() {}
-
-// c06TraceCollect returns the recorded operations as one token: op;op;…  (spaces inside an op become commas)
-func c06TraceCollect(p string) string {
-	if p == "" {
-		return "-"
-	}
-	b, err := os.ReadFile(p)
+// c06TraceOff stops tracing and returns the recorded operations as one S-expression, or "-".
+func c06TraceOff() string {
+	os.Unsetenv("VERIF_C06_TRACE")
+	b, err := os.ReadFile(c06TracePath)
+	_ = os.Remove(c06TracePath)
 	if err != nil || len(b) == 0 {
 		return "-"
 	}
-	lines := strings.Split(strings.TrimSpace(string(b)), "\n")
-	hasOp := false
-	for i, l := range lines {
-		if !strings.HasPrefix(l, "begin ") {
-			hasOp = true
+	var ops []string
+	for _, l := range strings.Split(string(b), "\n") {
+		l = strings.TrimSpace(l)
+		if strings.HasPrefix(l, "(") {
+			ops = append(ops, l)
 		}
-		lines[i] = strings.ReplaceAll(strings.TrimSpace(l), " ", ",")
 	}
-	if !hasOp {
+	if len(ops) == 0 {
 		return "-"
 	}
-	return strings.Join(lines, ";")
+	c06TraceOps = 0
+	for _, o := range ops {
+		if !strings.HasPrefix(o, "(new ") && !strings.HasPrefix(o, "(from ") {
+			c06TraceOps++
+		}
+	}
+	return "(trace " + strings.Join(ops, " ") + ")"
 }
 
 var _ = sort.Strings
